@@ -264,6 +264,14 @@ func (g *c05Gen) tree(ref string, p *c05Pick, s c05Slot, templated bool) (string
 	if !r.Chance(1, 10) {
 		n = r.Range(1, 4)
 	}
+	if s.kind == "object" {
+		// the scalar must evaluate to the object itself: at most parentheses
+		if r.Chance(1, 4) {
+			e = c05Expr{"(" + e.text + ")", e.off + 1, c05LvAtom, e.class}
+			path = append(path, "()")
+		}
+		return e.text[:e.off], e.text[e.off+len(ref):], path
+	}
 	for i := 0; i < n; i++ {
 		var l string
 		e, l = g.wrap(e, s.fromJSON, s.isIf)
